@@ -1,138 +1,10 @@
 /-
-  Rbgp.Wire.Update — C05 model: structured UPDATE + corruption list → bytes (`render`, the same algorithm as
-  harness/pt/src/bin/c05.rs), the shared receive-path model (`tryParse`), and `validate_message` /
+  Rbgp.Wire.Update — C05 model: the shared receive-path model (`tryParse`) and `validate_message` /
   `validate_update` of packet/src/bgp.rs (RFC 7606 classification, conversion of reach into unreach,
   filtering of iBGP-only attributes from eBGP peers).
 -/
-import Rbgp.Wire.Model
+import Rbgp.Wire.UpdateCase
 namespace Rbgp.Wire
-
-/-! ## the case language: a valid UPDATE and the corruptions applied to it -/
-
-/-- a prefix as written in a case: AddPath id, mask, exactly the significant address bytes -/
-structure CPfx where
-  id : Nat
-  mask : Nat
-  addr : Bytes
-  deriving DecidableEq, Repr, Inhabited
-
-structure CAttr where
-  flags : Nat
-  code : Nat
-  data : Bytes
-  deriving DecidableEq, Repr, Inhabited
-
-structure CMpReach where
-  afi : Nat
-  safi : Nat
-  nh : Bytes
-  nlri : List CPfx
-  deriving DecidableEq, Repr, Inhabited
-
-structure CMpUnreach where
-  afi : Nat
-  safi : Nat
-  nlri : List CPfx
-  deriving DecidableEq, Repr, Inhabited
-
-/-- the uncorrupted UPDATE -/
-structure CUpdate where
-  wd : List CPfx
-  attrs : List CAttr
-  mpr : Option CMpReach
-  mpu : Option CMpUnreach
-  nlri : List CPfx
-  deriving DecidableEq, Repr, Inhabited
-
-/-- the RFC 7606 ways of corrupting it; `i` indexes the rendered attribute list
-    `attrs ++ [MP_REACH] ++ [MP_UNREACH]` -/
-inductive Corr where
-  | flags (i : Nat) (f : Nat)          -- replace the flags octet
-  | data (i : Nat) (d : Bytes)         -- replace the value (length field follows): bad length / bad value
-  | lenfield (i : Nat) (l : Nat)       -- length field only: the attribute block framing breaks
-  | dup (i : Nat) (d : Bytes)          -- a second attribute of the same type right after it
-  | omit (i : Nat)                     -- omission
-  | trunc (k : Nat)                    -- the attribute block ends `k` bytes early
-  | unknown (f c : Nat) (d : Bytes)    -- an unrecognised attribute appended to the block
-  | nlribad (m : Nat)                  -- the first legacy NLRI prefix length octet becomes `m`
-  deriving DecidableEq, Repr, Inhabited
-
-/-! ## rendering -/
-
-structure RAttr where
-  flags : Nat
-  code : Nat
-  data : Bytes
-  lenOverride : Option Nat := none
-  present : Bool := true
-  dup : Option Bytes := none
-  deriving DecidableEq, Repr, Inhabited
-
-def pfxBytes (addpath : Bool) (p : CPfx) : Bytes :=
-  (if addpath then be32Bytes p.id else []) ++ [p.mask] ++ p.addr
-
-def pfxsBytes (addpath : Bool) (l : List CPfx) : Bytes := (l.map (pfxBytes addpath)).flatten
-
-def Codec.ap (c : Codec) (fam : Nat) : Bool := (c.addpath? fam).getD false
-
-def mprAttr (c : Codec) (m : CMpReach) : RAttr :=
-  let d := be16Bytes m.afi ++ [m.safi, m.nh.length] ++ m.nh ++ [0] ++ pfxsBytes (c.ap (famKey m.afi m.safi)) m.nlri
-  { flags := if d.length > 255 then 0x90 else 0x80, code := 14, data := d }
-
-def mpuAttr (c : Codec) (m : CMpUnreach) : RAttr :=
-  let d := be16Bytes m.afi ++ [m.safi] ++ pfxsBytes (c.ap (famKey m.afi m.safi)) m.nlri
-  { flags := if d.length > 255 then 0x90 else 0x80, code := 15, data := d }
-
-def baseAttrs (c : Codec) (u : CUpdate) : List RAttr :=
-  (u.attrs.map fun a => ({ flags := a.flags, code := a.code, data := a.data } : RAttr))
-    ++ (match u.mpr with | some m => [mprAttr c m] | none => [])
-    ++ (match u.mpu with | some m => [mpuAttr c m] | none => [])
-
-def modifyAt (i : Nat) (f : RAttr → RAttr) : List RAttr → List RAttr
-  | [] => []
-  | a :: as => match i with
-    | 0 => f a :: as
-    | i + 1 => a :: modifyAt i f as
-
-def applyCorr (l : List RAttr) : Corr → List RAttr
-  | .flags i f => modifyAt i (fun a => { a with flags := f }) l
-  | .data i d => modifyAt i (fun a => { a with data := d }) l
-  | .lenfield i n => modifyAt i (fun a => { a with lenOverride := some n }) l
-  | .dup i d => modifyAt i (fun a => { a with dup := some d }) l
-  | .omit i => modifyAt i (fun a => { a with present := false }) l
-  | .unknown f c d => l ++ [{ flags := f, code := c, data := d }]
-  | .trunc _ => l
-  | .nlribad _ => l
-
-def attrHdr (flags code len : Nat) : Bytes :=
-  if flags &&& 0x10 ≠ 0 then [flags, code] ++ be16Bytes len else [flags, code, len % 256]
-
-def renderAttr (a : RAttr) : Bytes :=
-  if !a.present then []
-  else
-    attrHdr a.flags a.code (a.lenOverride.getD a.data.length) ++ a.data ++
-      (match a.dup with
-       | some d => attrHdr a.flags a.code d.length ++ d
-       | none => [])
-
-def truncTotal (cs : List Corr) : Nat :=
-  cs.foldl (fun acc c => match c with | .trunc k => acc + k | _ => acc) 0
-
-def nlriBad (cs : List Corr) : Option Nat :=
-  cs.foldl (fun acc c => match c with | .nlribad m => some m | _ => acc) none
-
-/-- the UPDATE frame for `(u, cs)` under codec `c` -/
-def render (c : Codec) (u : CUpdate) (cs : List Corr) : Bytes :=
-  let attrs := cs.foldl applyCorr (baseAttrs c u)
-  let block := (attrs.map renderAttr).flatten
-  let block := block.take (block.length - truncTotal cs)
-  let wd := pfxsBytes (c.ap FAM_IPV4) u.wd
-  let nlri := pfxsBytes (c.ap FAM_IPV4) u.nlri
-  let nlri := match nlriBad cs, nlri with
-    | some m, _ :: rest => (if c.ap FAM_IPV4 then nlri.take 4 ++ [m] ++ nlri.drop 5 else m :: rest)
-    | _, _ => nlri
-  let total := 23 + wd.length + block.length + nlri.length
-  List.replicate 16 255 ++ be16Bytes total ++ [2] ++ be16Bytes wd.length ++ wd ++ be16Bytes block.length ++ block ++ nlri
 
 /-! ## `validate_message` / `validate_update` -/
 
